@@ -3,7 +3,7 @@ checks -- per-property wiring: families, counts, coverage accounting, evidence t
 """
 import json
 
-from sim import core, runner, streamsim
+from sim import core, histsim, runner, streamsim
 
 
 # ----------------------------------------------------------------------------
@@ -117,8 +117,80 @@ def c17(tier):
         _account_stream, design_ref='4.4')
 
 
-CHECKS = {'C11': c11, 'C12': c12, 'C17': c17}
-ENGINES = {'C11': streamsim, 'C12': streamsim, 'C17': streamsim}
+
+def _account_hist(stats, plan, tr):
+    stats.steps += len(plan['ops'])
+    for k, v in tr['probes'].items():
+        if k.startswith('max_') or k.endswith('_final'):
+            stats.probes[k] = max(stats.probes.get(k, 0), v)
+        elif v:
+            stats.probe(k, v)
+    if tr['probes']['io_fired']:
+        stats.faults_fired['table_io_error'] = stats.faults_fired.get('table_io_error', 0) + tr['probes']['io_fired']
+    for op in plan['ops']:
+        stats.probe('op_' + op['op'])
+    if tr['probes']['max_groups'] >= 50:
+        stats.probe('runs_reaching_real_limit_50')
+    st, trn = histsim.abstract_states(plan, tr)
+    stats.__dict__.setdefault('states', set()).update(st)
+    stats.__dict__.setdefault('transitions', set()).update(trn)
+    stats.probes['compared_ops'] = stats.probes.get('compared_ops', 0) + len(histsim.compared_ops(plan, tr))
+
+
+def _extra_hist(stats):
+    return {'states_distinct': len(getattr(stats, 'states', ())), 'transitions_distinct': len(getattr(stats, 'transitions', ())),
+            'state_abstraction': '(cache limit, table groups cached, compiled templates cached over all clients); '
+                                 'transitions labelled by operation kind',
+            'reference_runs': histsim.REFS.computed}
+
+
+ASSUME_HIST = [
+    'the reference for every compared operation is the same operation executed alone (after the decode its handle '
+    'needs) in a pristine forked process; a compiled client is compared with a compiled fresh client (C13) or with '
+    'an interpreting fresh client (C08)',
+    'an operation during which an injected table-file I/O fault actually fired is excluded from comparison; every '
+    'later operation is compared exactly (c13-io family only)',
+    'table-definition messages are excluded from these histories (C13 proviso)',
+    'text renderings are compared after normalising the tables root directory in the first line (alias root)',
+]
+
+HIST_POOL = {'n_corpus': 45, 'n_synth': 35}
+
+
+def c13(tier):
+    return runner.check_main(
+        'C13', tier, histsim, 'histsim',
+        [('c13', 170, 14000), ('c13-io', 90, 6000)],
+        'exploration',
+        'seeded histories of 5..40 (thorough 60) operations {decode, decode_info, failing decode, render x4, data '
+        'query, metadata query, script, double wire, encode, failing encode, subset+encode, table lookup, restart, '
+        'invalidate, armed table-file I/O fault} by 2..4 clients (compiled cache None/0/1/2/8, bundled or alias '
+        'tables root) over 6..16 messages spanning more table groups than the cache limit {1,2,3,50; 50 reached '
+        'through the alias root}; a case is one history; distinct = (family, limit, client configs, op-kind '
+        'sequence); non-trivial = an eviction, failed operation, fired I/O fault or restart occurred',
+        ASSUME_HIST, _account_hist, extra_cov=_extra_hist,
+        pool_kwargs=None if tier == 'thorough' else HIST_POOL, design_ref='5.2')
+
+
+def c08(tier):
+    return runner.check_main(
+        'C08', tier, histsim, 'histsim',
+        [('c08', 240, 16000)],
+        'exploration',
+        'seeded histories biased to compiling clients (cache 0/1/2/8), always containing a pair of messages with the '
+        'same descriptor list under table versions where an element differs and messages with marker operators, '
+        'with save -> restart -> load of compiled templates through a simulated disk; every decode/encode/render '
+        'by a compiling client is compared with the INTERPRETED fresh-process reference; distinct/non-trivial as '
+        'for C13 (plus: a template was re-loaded)',
+        ASSUME_HIST + ['"compiled == interpreted for every template" is only sampled on the templates of the pool '
+                       '(corpus templates incl. marker operators, synthetic ones); deciding it for all templates is '
+                       'translation validation, a different technique'],
+        _account_hist, extra_cov=_extra_hist,
+        pool_kwargs={'n_ops': 900} if tier == 'thorough' else dict(HIST_POOL, n_ops=110), design_ref='5.3')
+
+
+CHECKS = {'C11': c11, 'C12': c12, 'C17': c17, 'C13': c13, 'C08': c08}
+ENGINES = {'C11': streamsim, 'C12': streamsim, 'C17': streamsim, 'C13': histsim, 'C08': histsim}
 
 
 def replay(prop, path):
